@@ -86,6 +86,7 @@ def _(self: "newobj:XorEncodedFile", fh: "file", nonce_offset: "int"):
 @contract("dissect.cobaltstrike.xordecode:iter_nonce_offsets", mode="all", props=["C09"])
 def _(fh: "file", real_size: "opt[int]", maxrange: "int"):
     """yields exactly the offsets i < maxrange whose decoded size field accounts for the rest of the file"""
+    modifies(fh)
     requires(maxrange >= 0)
     yields("int")
     terminates()
